@@ -562,7 +562,7 @@ def run_c04(tier: str, seed: int) -> int:
         rep.add_part("spec->code replay of alternative encodings (unpack_ldap_message; requests also through LDAPServer.receive)", cases=len(alt), via_session=n_sess, via_session_in_two_chunks=n_cut)
         for cs in alt[:2] + alt[-1:]:
             rep.sample({"mi": cs["mi"], "op": cs["m"]["op"], "xd": cs["xd"], "choices": cs["ch"], "enc_hex": bytes(cs["enc"]).hex()[:160]})
-        rep.rule = ("TLC enumerates LdapMsgGen: for every pool message all 220 uniform styles (5 length forms x 4 TRUE octets x 11 trailers: four reuse the number of a defined optional component in another tag class, two put universal OCTET STRING / BOOLEAN elements behind an unknown one) with and without explicit "
+        rep.rule = ("TLC enumerates LdapMsgGen: for every pool message all 300 uniform styles (5 length forms x 4 TRUE octets x 15 trailers: three use the high tag number form with one number octet (31..127), one follows such an element with a long unknown element whose content holds look-alikes of the defined optional components, four reuse the number of a defined optional component in another tag class, two put universal OCTET STRING / BOOLEAN elements behind an unknown one) with and without explicit "
                     "defaults; for small messages every per-node combination of {minimal, 0x84} lengths x {FF, 01} x {none, [1000]}; -simulate draws random per-node "
                     "mixes of all forms for all messages.  Distinct by (message, explicit-defaults, choice sequence)")
         rep.assumptions = ["D9: trailing elements carry tags the sequence does not define", "non-minimal INTEGER contents are not a BER freedom",
